@@ -9,6 +9,14 @@ class StmtMixin:
 
     # ---- assignment ------------------------------------------------------
     def s_Assign(self, n, st, fx):
+        if isinstance(n.value, ast.IfExp) and any(isinstance(t, ast.Attribute) and t.attr == "state" for t in n.targets):
+            # self.state = A if c else B: the state machine moves differently on the two sides, so the path forks
+            a = ast.copy_location(ast.Assign(targets=n.targets, value=n.value.body, lineno=n.lineno), n)
+            b = ast.copy_location(ast.Assign(targets=n.targets, value=n.value.orelse, lineno=n.lineno), n)
+            alt = ast.copy_location(ast.If(test=n.value.test, body=[a], orelse=[b]), n)
+            ast.fix_missing_locations(alt)
+            yield from self.stmt(alt, st, fx)
+            return
         for r, val, s in self.ev(n.value, st, fx):
             if r == "raise":
                 yield ("raise", val), s
